@@ -19,6 +19,7 @@
 //!      ZCARD) of some watched key taken by B right before EXEC differs from the one taken right before
 //!      WATCH.  A miss on keys that hold a non-string value at both instants is the known finding
 //!      C05-watch-nonstring; anything else is a violation.
+//!   T4 the probes of one key, answered at one instant, are consistent (GET serves a string => LRANGE is WRONGTYPE)
 use rand::seq::SliceRandom;
 use rand::Rng as _;
 use redis_sim::observability::{DatadogConfig, Metrics};
@@ -161,6 +162,13 @@ fn run(env: &Env, shards: usize, steps: &[(usize, Vec<u8>)]) -> Ran {
             }
             let mut replies = Vec::new();
             for (si, (c, frame)) in steps.iter().enumerate() {
+                if *c == 2 {
+                    // a pause: frame holds the milliseconds in ASCII
+                    let ms: u64 = std::str::from_utf8(frame).unwrap().parse().unwrap();
+                    tokio::time::sleep(std::time::Duration::from_millis(ms)).await;
+                    replies.push(Vec::new());
+                    continue;
+                }
                 let before = outs[*c].lock().unwrap().len();
                 if txs[*c].send(frame.clone()).is_err() {
                     return Ran::Hang(si);
@@ -298,10 +306,12 @@ enum Role {
     Discard,
     Dump(usize, usize), // B: final dump
     After,              // A: a plain command after the transaction
+    Sleep(u64),         // nobody sends anything for that many milliseconds (conn index 2)
 }
 
 struct Scenario {
     steps: Vec<(usize, Vec<u8>, Role, String)>,
+    ttl: bool, // a key with a deadline and real pauses are involved
 }
 
 fn gen_scenario(keys: &[Vec<u8>], rng: &mut Rng, out: &mut Out) -> Scenario {
@@ -315,20 +325,33 @@ fn gen_scenario(keys: &[Vec<u8>], rng: &mut Rng, out: &mut Out) -> Scenario {
             steps.push((1, f, Role::Setup, format!("create {:?}", t)));
         }
     }
-    let rounds = if rng.gen_bool(0.35) { 2 } else { 1 };
+    // one scenario in 16: key 0 is a string with a deadline (PX 40 = runs out during a 90 ms pause,
+    // PX 60000 = never runs out); A watches it; the pause falls between WATCH and MULTI or before EXEC
+    let ttl = rng.gen_range(0..16) == 0;
+    let ttl_px: &[u8] = if rng.gen_bool(0.75) { b"40" } else { b"60000" };
+    let ttl_pause_before_multi = rng.gen_bool(0.5);
+    let ttl_touch_shard = rng.gen_bool(0.4); // a generic command on the key's shard after the pause
+    if ttl {
+        out.count(&format!("ttl:px{}", String::from_utf8_lossy(ttl_px)));
+        steps.push((1, enc(&[b"DEL", &keys[0]]), Role::Setup, "ttl-setup".into()));
+        steps.push((1, enc(&[b"SET", &keys[0], b"ttl-value", b"PX", ttl_px]), Role::Setup, "set-px".into()));
+    }
+    let rounds = if ttl { 1 } else if rng.gen_bool(0.35) { 2 } else { 1 };
     for _ in 0..rounds {
         // WATCH phase: 0-3 WATCH commands (overlapping key lists, a key may be repeated inside one
         // WATCH), B writing between any two of them, sometimes an UNWATCH in between
         let mut watched: Vec<usize> = Vec::new(); // keys watched when MULTI arrives (generator's view)
         let wr = |steps: &mut Vec<(usize, Vec<u8>, Role, String)>, rng: &mut Rng, out: &mut Out, watched: &Vec<usize>| {
-            let i = if !watched.is_empty() && rng.gen_bool(0.7) { *watched.choose(rng).unwrap() } else { rng.gen_range(0..nk) };
+            // in a deadline scenario key 0 changes by expiry only (nobody rewrites or deletes it: DEL of an
+            // expired key that no reader has dropped yet answers 1 in the code, which the mini backend does not follow)
+            let i = if ttl { rng.gen_range(1..nk) } else if !watched.is_empty() && rng.gen_bool(0.7) { *watched.choose(rng).unwrap() } else { rng.gen_range(0..nk) };
             let (l, fs) = modify(&keys[i], rng);
             out.count(&format!("b_write:{}", l));
             for f in fs {
                 steps.push((1, f, Role::Between, l.clone()));
             }
         };
-        let nwatch = match rng.gen_range(0..10) { 0..=1 => 0, 2..=5 => 1, 6..=8 => 2, _ => 3 };
+        let nwatch = if ttl { 1 } else { match rng.gen_range(0..10) { 0..=1 => 0, 2..=5 => 1, 6..=8 => 2, _ => 3 } };
         out.count(&format!("watch_commands:{}", nwatch));
         for _ in 0..nwatch {
             let mut ks: Vec<usize> = match rng.gen_range(0..10) {
@@ -339,6 +362,9 @@ fn gen_scenario(keys: &[Vec<u8>], rng: &mut Rng, out: &mut Out) -> Scenario {
             // re-watch an already watched key more often than chance would
             if !watched.is_empty() && rng.gen_bool(0.5) {
                 ks[0] = *watched.choose(rng).unwrap();
+            }
+            if ttl {
+                ks[0] = 0;
             }
             if ks.iter().any(|k| watched.contains(k)) {
                 out.count("watch:key_watched_again");
@@ -380,11 +406,17 @@ fn gen_scenario(keys: &[Vec<u8>], rng: &mut Rng, out: &mut Out) -> Scenario {
                 wr(&mut steps, rng, out, &watched);
             }
         }
+        if ttl && ttl_pause_before_multi {
+            steps.push((2, b"90".to_vec(), Role::Sleep(90), "pause".into()));
+            if ttl_touch_shard {
+                steps.push((1, enc(&[b"LLEN", &keys[0]]), Role::Between, "touch-shard".into()));
+            }
+        }
         steps.push((0, enc(&[b"MULTI"]), Role::Multi, "multi".into()));
         // body
         let nb = rng.gen_range(0..6);
         for _ in 0..nb {
-            let k = keys.choose(rng).unwrap();
+            let k = if ttl { keys[1..].choose(rng).unwrap() } else { keys.choose(rng).unwrap() };
             let v = *VALS.choose(rng).unwrap();
             let (label, frame, queued): (&str, Vec<u8>, bool) = match rng.gen_range(0..22) {
                 0..=2 => ("set", enc(&[b"SET", k, v]), true),
@@ -415,6 +447,12 @@ fn gen_scenario(keys: &[Vec<u8>], rng: &mut Rng, out: &mut Out) -> Scenario {
         for _ in 0..rng.gen_range(0..2) {
             wr(&mut steps, rng, out, &watched);
         }
+        if ttl && !ttl_pause_before_multi {
+            steps.push((2, b"90".to_vec(), Role::Sleep(90), "pause".into()));
+            if ttl_touch_shard {
+                steps.push((1, enc(&[b"LLEN", &keys[0]]), Role::Between, "touch-shard".into()));
+            }
+        }
         for i in 0..nk {
             for (j, p) in probes(&keys[i]).into_iter().enumerate() {
                 steps.push((1, p, Role::ProbeE(i, j), "probe".into()));
@@ -436,7 +474,7 @@ fn gen_scenario(keys: &[Vec<u8>], rng: &mut Rng, out: &mut Out) -> Scenario {
             steps.push((1, p, Role::Dump(i, j), "dump".into()));
         }
     }
-    Scenario { steps }
+    Scenario { steps, ttl }
 }
 
 fn main() {
@@ -464,7 +502,7 @@ fn main() {
         let got = run(&env, shards, &plain);
         out.impl_checks += 1;
         let descr = |replies: &[Vec<u8>]| -> Vec<String> {
-            sc.steps.iter().enumerate().filter(|(_, s)| !matches!(s.2, Role::DumpBefore(..) | Role::Dump(..) | Role::ProbeW(..) | Role::ProbeE(..))).map(|(j, s)| format!("{} {:?} -> {:?}", if s.0 == 0 { "A" } else { "B" }, String::from_utf8_lossy(&s.1), replies.get(j).map(|r| String::from_utf8_lossy(r).to_string()))).collect()
+            sc.steps.iter().enumerate().filter(|(_, s)| !matches!(s.2, Role::DumpBefore(..) | Role::Dump(..) | Role::ProbeW(..) | Role::ProbeE(..))).map(|(j, s)| format!("{} {:?} -> {:?}", if s.0 == 0 { "A" } else if s.0 == 1 { "B" } else { "pause ms" }, String::from_utf8_lossy(&s.1), replies.get(j).map(|r| String::from_utf8_lossy(r).to_string()))).collect()
         };
         let replies = match got {
             Ran::Ok(r) => r,
@@ -490,7 +528,7 @@ fn main() {
         for (j, s) in sc.steps.iter().enumerate() {
             let r = &replies[j];
             match &s.2 {
-                Role::Setup | Role::Between => twin.push((s.0, s.1.clone())),
+                Role::Setup | Role::Between | Role::Sleep(_) => twin.push((s.0, s.1.clone())),
                 Role::After => {
                     if s.3 == "unwatch" {
                         watched.clear();
@@ -554,6 +592,15 @@ fn main() {
                 }
                 Role::ProbeE(k, jj) => {
                     fp_e.entry(*k).or_insert_with(Vec::new).push(r.clone());
+                    // T4: the seven probes of a key are answered at one instant (nobody writes in between):
+                    // if GET serves a string value, LRANGE must say WRONGTYPE - a key that LRANGE sees as
+                    // absent while GET still serves its value is an expired key served from a stale clock
+                    if *jj == 1 {
+                        let g = &fp_e[k][0];
+                        if g.first() == Some(&b'$') && !g.starts_with(b"$-1") && !r.starts_with(b"-WRONGTYPE") {
+                            out.violation(i, "T4: GET serves a value for a key that the next command (LRANGE, generic path) sees as absent: an expired key is still served by the plain GET path", json!({"key": String::from_utf8_lossy(&keys[*k]), "get": String::from_utf8_lossy(g), "lrange": String::from_utf8_lossy(r), "steps": descr(&replies)}));
+                        }
+                    }
                     // T1: the twin has B's writes but none of A's queued commands: same dump = no effect until EXEC
                     let _ = jj;
                     twin.push((s.0, s.1.clone()));
@@ -664,9 +711,10 @@ fn main() {
             idx.insert(b.clone(), tbl.len() - 1);
             tbl.len() - 1
         };
-        let step_ix: Vec<(bool, usize)> = sc.steps.iter().map(|s| (s.0 == 0, ix(&s.1, &mut tbl))).collect();
+        // (1, i) = A sends tbl[i]; (0, i) = B sends tbl[i]; (2, ms) = a pause
+        let step_ix: Vec<(usize, usize)> = sc.steps.iter().map(|s| match s.2 { Role::Sleep(ms) => (2, ms as usize), _ => (if s.0 == 0 { 1 } else { 0 }, ix(&s.1, &mut tbl)) }).collect();
         let reply_ix: Vec<usize> = replies.iter().map(|r| ix(r, &mut tbl)).collect();
-        let term = format!("(KTx {} {} {} false)", clist(tbl.iter(), |b| chex(b)), clist(step_ix.iter(), |s| format!("({}, {})", cbool(s.0), s.1)), clist(reply_ix.iter(), |r| r.to_string()));
+        let term = format!("(KTx {} {} {} false)", clist(tbl.iter(), |b| chex(b)), clist(step_ix.iter(), |s| format!("({}, {})", s.0, s.1)), clist(reply_ix.iter(), |r| r.to_string()));
         out.case(i, term, nontrivial, &format!("{}{}", shards, sc.steps.iter().zip(replies.iter()).map(|(s, r)| format!("{}{}{}", s.0, hex(&s.1), hex(r))).collect::<String>()));
         out.sample(json!({"shards": shards, "outcomes": exec_kinds, "steps": descr(&replies)}));
         if args.only.is_some() {
